@@ -41,8 +41,8 @@ from . import common
 ID = "C05"
 LEVEL = "exploration"
 TIERS = {
-    "quick": {"runs": 500, "wall": 80, "run_timeout": 150, "shrink_s": 60},
-    "thorough": {"runs": 30000, "wall": 1100, "run_timeout": 300, "shrink_s": 180},
+    "quick": {"runs": 500, "wall": 80, "run_timeout": 240, "shrink_s": 60},
+    "thorough": {"runs": 30000, "wall": 1100, "run_timeout": 400, "shrink_s": 180},
 }
 RULE = ("case = seeded gamma scenario (continuum <=4x7, dissimilarity, sampler statistical/shuffle-int/shuffle-float/default, mode "
         "exact/fast/soft, n_samples 1..10, precision none/numeric/named, ground-truth subset) x seeded schedule x solver fault plan; "
